@@ -2,7 +2,9 @@
 C12 driver: TRACE ACCEPTANCE against `CamVerif.Model.StreamLoop`.
 
 Request (one line, space separated):
-  c12 trace <profile> <ls> <ts> <ps> <pc> <f1> <f2> <cap> <bcap> <maxLate> <item>* <event>*
+  c12 trace <profile> <session>          one session
+  c12 mtrace <profile> <session> | <session> ...   several sessions on the same handle, ONE model run
+  <session> = <ls> <ts> <ps> <pc> <f1> <f2> <cap> <bcap> <maxLate> <item>* <event>*
 items  : `id<hex|->` data packet, `ifio` `ifdisc` `iftimeout` fault
 events : loop thread   Ytop Yget Yobt Ypoll Ysend Yerr  yield-point markers
                        S<id>,<len>  SF<cls>            submit ok / failed
@@ -280,38 +282,87 @@ def describe (xs : List Acc) : String :=
   ",".intercalate ((xs.take 6).map fun a =>
     s!"pc{pcTag a.s.pc}/pend{a.s.pending.length}/chan{a.s.chan.length}/back{a.s.back.length}/held{a.s.held.length}/ctl{ctlTag a.s.ctl}/cons{a.s.consumed}/nx{a.s.nextXfer}")
 
-def runEvents (E : Env) : Nat → List String → List Acc → String
-  | _, [], set =>
-    match set with
-    | a :: _ =>
-      let hs := a.path.reverse.map fun h => natToHex 16 h.1.toNat ++ ":" ++ natToHex 16 h.2.toNat
-      s!"ACCEPT {set.length} " ++ " ".intercalate hs
-    | [] => "REJECT end"
+def runEventsSet (E : Env) : Nat → List String → List Acc → Except String (List Acc)
+  | _, [], set => .ok set
   | i, ev :: rest, set =>
     let cl := closeSet E set
     let next := cl.filterMap (applyEvent E ev)
     match next with
-    | [] => s!"REJECT {i} {ev} from {describe cl}"
-    | _ => runEvents E (i + 1) rest next
+    | [] => .error s!"REJECT {i} {ev} from {describe cl}"
+    | _ => runEventsSet E (i + 1) rest next
+
+def finishSet (set : List Acc) : String :=
+  match set with
+  | a :: _ =>
+    let hs := a.path.reverse.map fun h => natToHex 16 h.1.toNat ++ ":" ++ natToHex 16 h.2.toNat
+    s!"ACCEPT {set.length} " ++ " ".intercalate hs
+  | [] => "REJECT end"
 
 def parseItem (t : String) : Option Item :=
   if t.startsWith "id" then (hexToBytes (t.drop 2).toString).map Item.data
   else if t.startsWith "if" then (clsOf (t.drop 2).toString).map Item.fault
   else none
 
-def handle : List String → String
-  | "trace" :: prof :: ls :: ts :: ps :: pc :: f1 :: f2 :: cap :: bcap :: ml :: rest =>
-    match profileOf prof, ls.toNat?, ts.toNat?, ps.toNat?, pc.toNat?, f1.toNat?, f2.toNat?, cap.toNat?, bcap.toNat?, ml.toNat? with
-    | some prof, some ls, some ts, some ps, some pc, some f1, some f2, some cap, some bcap, some ml =>
+/-- `<ls> <ts> <ps> <pc> <f1> <f2> <cap> <bcap> <maxLate> <item>* <event>*` -/
+def parseSession (prof : Profile) : List String → Option (Env × List String)
+  | ls :: ts :: ps :: pc :: f1 :: f2 :: cap :: bcap :: ml :: rest =>
+    match ls.toNat?, ts.toNat?, ps.toNat?, pc.toNat?, f1.toNat?, f2.toNat?, cap.toNat?, bcap.toNat?, ml.toNat? with
+    | some ls, some ts, some ps, some pc, some f1, some f2, some cap, some bcap, some ml =>
       let P : Params := ⟨ls, ts, ps, pc, f1, f2, cap, bcap, ml⟩
       let itemToks := rest.takeWhile (fun t => t.startsWith "i")
       let evs := rest.dropWhile (fun t => t.startsWith "i")
       match itemToks.mapM parseItem with
-      | some items =>
-        let E : Env := ⟨P, asm prof, items⟩
-        runEvents E 0 evs [⟨init P, [], [], []⟩]
-      | none => "bad-items"
-    | _, _, _, _, _, _, _, _, _, _ => "bad-op"
+      | some items => some (⟨P, asm prof, items⟩, evs)
+      | none => none
+    | _, _, _, _, _, _, _, _, _ => none
+  | _ => none
+
+def splitSessions : List String → List (List String)
+  | [] => [[]]
+  | t :: rest =>
+    match splitSessions rest with
+    | cur :: more => if t == "|" then [] :: cur :: more else (t :: cur) :: more
+    | [] => [[t]]
+
+/-- Sessions of one history on the same handle, accepted by ONE run of the model: between two
+sessions the model takes its `restart` step (new parameters, script and channels; the receiver
+keeps what it holds; buffer identities and tokens carry over). -/
+def runSessions (prof : Profile) : Nat → List (List String) → Option (List Acc) → String
+  | _, [], none => "bad-op"
+  | _, [], some set => finishSet set
+  | k, toks :: more, cur =>
+    match parseSession prof toks with
+    | none => "bad-session"
+    | some (E, evs) =>
+      let start : Except String (List Acc) :=
+        match cur with
+        | none => .ok [⟨init E.P, [], [], []⟩]
+        | some set =>
+          -- restart: enabled in the states where the previous session is stopped/closed and its loop
+          -- has returned
+          let cands := set.filter fun a => decide (canRestart a.s)
+          match cands with
+          | [] => .error s!"REJECT restart {k} from {describe set}"
+          | _ => .ok (cands.map fun a =>
+              { a with s := restartState E.P a.s, ptr := [],
+                       path := (fnvNat (fnvNat (absHash a.s) 99) (absHash (restartState E.P a.s)).toNat,
+                                absHash (restartState E.P a.s)) :: a.path })
+      match start with
+      | .error e => e
+      | .ok set0 =>
+        match runEventsSet E 0 evs set0 with
+        | .error e => s!"{e} (session {k})"
+        | .ok set1 => runSessions prof (k + 1) more (some (closeSet E set1))
+
+def handle : List String → String
+  | "trace" :: prof :: rest =>
+    match profileOf prof with
+    | some prof => runSessions prof 1 [rest] none
+    | none => "bad-op"
+  | "mtrace" :: prof :: rest =>
+    match profileOf prof with
+    | some prof => runSessions prof 1 (splitSessions rest) none
+    | none => "bad-op"
   | _ => "bad-op"
 
 end Driver.C12
